@@ -32,19 +32,21 @@ type brHarness struct {
 	e    *skyEnv
 	nTok int
 	// ghost bookkeeping for the monitors
-	accepted map[int]obsTx
-	refunded map[int]bool
-	burned   map[int]bool
-	pendEst  map[[2]int]uint64
-	taxCfg   map[int][3]string
-	limits   map[int][2]int64 // period, start of current window (tracked by harness only for generation)
+	accepted     map[int]obsTx
+	refunded     map[int]bool
+	burned       map[int]bool
+	pendEst      map[[2]int]uint64
+	taxCfg       map[int][3]string
+	taxRate      map[int][2]int64 // token -> (num, den) of the configured rate
+	taxEx        map[int]int      // token -> exempt user (0 = none)
+	limits       map[int][2]int64 // period, start of current window (tracked by harness only for generation)
 	fundedSupply map[int]*big.Int
-	minted  map[int]*big.Int
-	burnt   map[int]*big.Int
-	ops     []string // current case's op lines (for replay files)
-	ckpts    []brCkpt            // every checkpoint ever observed as a batch's signing bytes
-	ckptSeen map[string]bool
-	deposits map[uint64][2]int64 // skyway nonce -> (token, amount) for deposit claims with a registered token
+	minted       map[int]*big.Int
+	burnt        map[int]*big.Int
+	ops          []string // current case's op lines (for replay files)
+	ckpts        []brCkpt // every checkpoint ever observed as a batch's signing bytes
+	ckptSeen     map[string]bool
+	deposits     map[uint64][2]int64 // skyway nonce -> (token, amount) for deposit claims with a registered token
 	seenObserved uint64
 }
 
@@ -305,7 +307,7 @@ func TestBridge(t *testing.T) {
 func runBridgeCase(t *testing.T, r *Rec, prop string, nops int) {
 	e := newSkyEnv(t, 3)
 	b := &brHarness{r: r, e: e, nTok: 2, accepted: map[int]obsTx{}, refunded: map[int]bool{}, burned: map[int]bool{},
-		ckptSeen: map[string]bool{}, deposits: map[uint64][2]int64{}, pendEst: map[[2]int]uint64{}, fundedSupply: map[int]*big.Int{}, minted: map[int]*big.Int{}, burnt: map[int]*big.Int{}}
+		taxRate: map[int][2]int64{}, taxEx: map[int]int{}, ckptSeen: map[string]bool{}, deposits: map[uint64][2]int64{}, pendEst: map[[2]int]uint64{}, fundedSupply: map[int]*big.Int{}, minted: map[int]*big.Int{}, burnt: map[int]*big.Int{}}
 	e.addToken("utok1", "0x1000000000000000000000000000000000000001")
 	e.addToken("utok2", "0x1000000000000000000000000000000000000002")
 	for tk := 1; tk <= b.nTok; tk++ {
@@ -362,6 +364,14 @@ func runBridgeCase(t *testing.T, r *Rec, prop string, nops int) {
 			err := e.gov(e.ctx, &skytypes.SetBridgeTaxProposal{Title: "t", Description: "d", Token: e.denoms[tk-1], Rate: rateString(r, n, d), ExemptAddresses: exStr})
 			if err != nil {
 				t.Fatalf("settax: %v", err)
+			}
+			b.taxRate[tk] = [2]int64{n, d}
+			b.taxEx[tk] = 0
+			if exs != "-" {
+				fmt.Sscan(exs, new(int))
+				var eu int
+				fmt.Sscan(exs, &eu)
+				b.taxEx[tk] = eu
 			}
 			b.emit(fmt.Sprintf("settax %d %d %d %s", tk, n, d, exs), b.state())
 			r.Stat("op.settax")
@@ -425,6 +435,15 @@ func runBridgeCase(t *testing.T, r *Rec, prop string, nops int) {
 						tx, _ := new(big.Int).SetString(x.tax, 10)
 						if cost.BigInt().Cmp(new(big.Int).Add(a, tx)) != 0 || a.Cmp(amt.BigInt()) != 0 {
 							r.Hit("cost_exact", fmt.Sprintf("send of %s cost %s but recorded amount %s tax %s", amt, cost, x.amount, x.tax), b.replay())
+						}
+						// the tax itself: floor(amount * rate) for a non-exempt sender, 0 for an exempt one (computed here with big rationals)
+						wantTax := new(big.Int)
+						if rt, ok := b.taxRate[tk]; ok && rt[0] != 0 && b.taxEx[tk] != u {
+							wantTax.Mul(amt.BigInt(), big.NewInt(rt[0]))
+							wantTax.Quo(wantTax, big.NewInt(rt[1]))
+						}
+						if wantTax.Cmp(tx) != 0 {
+							r.Hit("tax_is_floor_of_rate", fmt.Sprintf("send of %s by user %d on token %d was taxed %s, expected floor(amount*%v) = %s", amt, u, tk, x.tax, b.taxRate[tk], wantTax), b.replay())
 						}
 					}
 				}
